@@ -233,11 +233,25 @@ class MpFam:
             z = z + M([[self.q[a][i] * mp.sin(arg[i])] for i in range(z.rows)])
         return z
 
-    def _pre(self, A, B, c, tv, a, x, u):
-        """pre-cancellation magnitude of the evaluation (for tolerances)"""
+    def _argpre(self, W, Vv, ph, x, u):
+        return mabs(self.q[W]) * mabs(x) + (mabs(self.q[Vv]) * mabs(u) if u.rows else 0 * mabs(self.q[ph])) + mabs(self.q[ph])
+
+    def _pre(self, A, B, c, tv, a, W, Vv, ph, x, u):
+        """pre-cancellation magnitude of the evaluation (for tolerances): |affine terms| + |a| (1 + |argument of sin|),
+        the last because an eps-relative error of the argument moves the sine by up to |a| eps |argument|"""
         z = mabs(self.q[A]) * mabs(x) + (mabs(self.q[B]) * mabs(u) if u.rows else 0 * mabs(self.q[c])) \
-            + mabs(self.q[c]) + abs(self.t) * mabs(self.q[tv]) + mabs(self.q[a])
-        return z
+            + mabs(self.q[c]) + abs(self.t) * mabs(self.q[tv])
+        ap = self._argpre(W, Vv, ph, x, u)
+        return z + M([[abs(self.q[a][i]) * (1 + ap[i])] for i in range(z.rows)])
+
+    def _jpre(self, A, a, W, Vv, ph, x, u):
+        """magnitude bound of the Jacobian including the sensitivity of cos to its argument"""
+        ap = self._argpre(W, Vv, ph, x, u)
+        J = mabs(self.q[A])
+        for i in range(J.rows):
+            for j in range(J.cols):
+                J[i, j] += abs(self.q[a][i]) * (1 + ap[i]) * abs(self.q[W][i, j])
+        return J
 
     def _jac(self, A, a, W, Vv, ph, nonlin, x, u):
         J = self.q[A].copy()
@@ -256,10 +270,16 @@ class MpFam:
         return self._fun("C0", "D0", "c2", "tg", "ag", "Wg", "Vg", "phg", self.ng, x, u)
 
     def fpre(self, x, u):
-        return self._pre("A0", "B0", "c1", "tf", "af", x, u)
+        return self._pre("A0", "B0", "c1", "tf", "af", "Wf", "Vf", "phf", x, u)
 
     def gpre(self, x, u):
-        return self._pre("C0", "D0", "c2", "tg", "ag", x, u)
+        return self._pre("C0", "D0", "c2", "tg", "ag", "Wg", "Vg", "phg", x, u)
+
+    def jfpre(self, x, u):
+        return self._jpre("A0", "af", "Wf", "Vf", "phf", x, u)
+
+    def jgpre(self, x, u):
+        return self._jpre("C0", "ag", "Wg", "Vg", "phg", x, u)
 
     def jf(self, x, u):
         return self._jac("A0", "af", "Wf", "Vf", "phf", self.nf, x, u)
@@ -289,12 +309,18 @@ def mp_kalman_predict(fam: MpFam, u, Q, R, x, P):
     K = Pm * C.T * Si
     gx = fam.g(xm, u)
     Pp = Pm - K * C * Pm
-    Pm_abs = mabs(A) * mabs(P) * mabs(A).T + mabs(Q)
-    KC = mabs(K) * mabs(C)
+    Aa, Ca = fam.jfpre(x, u), fam.jgpre(x, u)
+    Pm_abs = Aa * mabs(P) * Aa.T + mabs(Q)
+    K_pre = Pm_abs * Ca.T * mabs(Si)          # |P^-||C|^T|S^-1| >= |K| (cancellation inside the products)
+    KC = K_pre * Ca
     scaleP = mmax(Pm_abs + KC * Pm_abs)
     xm_pre = fam.fpre(x, u)
+    # first-order amplification of a perturbation of the prior covariance: P+ = M P M^T + ..., M = (I - K C) A
+    I = mp.eye(Pm.rows)
+    Mabs = (I + KC) * Aa
     return {"P": Pp, "xm": xm, "Pm": Pm, "S": S, "K": K, "gx": gx, "kappa": cond2(S), "scaleP": float(scaleP),
-            "xm_pre": xm_pre, "g_pre": fam.gpre(xm_pre, u)}
+            "xm_pre": xm_pre, "g_pre": fam.gpre(xm_pre, u), "K_pre": K_pre,
+            "gain2": float((Pm.rows * mmax(Mabs)) ** 2)}
 
 
 def mp_kalman_update(pre, y):
@@ -305,79 +331,98 @@ def mp_kalman_update(pre, y):
     out = dict(pre)
     out["x"] = pre["xm"] + pre["K"] * e
     e_pre = mabs(y) + pre["g_pre"]
-    out["scalex"] = float(mmax(pre["xm_pre"] + mabs(pre["K"]) * e_pre))
+    out["scalex"] = float(mmax(pre["xm_pre"] + pre["K_pre"] * e_pre))
     return out
 
 
-def mp_ukf(fam: MpFam, kk, u, y, Q, R, x, P):
-    """Textbook UKF as the code states it (columns of the lower Cholesky factor), 50 digits; returns the
-    posterior and the magnitudes that enter the tolerance.  Raises ValueError when a factor does not exist."""
-    n = len(x)
-    u, y, x = V(u), V(y), V(x)
-    Q, R, P = M(Q), M(R), M(P)
-    kk = mp.mpf(kk)
+class NpFam:
+    """the family in float64 numpy (used only for magnitudes that enter tolerances, and for the PF reference)"""
+
+    def __init__(self, prm, t):
+        self.q = {kx: np.array(prm[kx], dtype=np.float64) for kx in FAM_KEYS}
+        self.t = float(t)
+
+    def _fun(self, A, B, c, tv, a, W, Vv, ph, X, u):
+        q = self.q
+        bu = q[B] @ u if u.size else 0.0
+        vu = q[Vv] @ u if u.size else 0.0
+        z = X @ q[A].T + bu + q[c] + self.t * q[tv]
+        if np.any(q[a] != 0):
+            z = z + q[a] * np.sin(X @ q[W].T + vu + q[ph])
+        return z
+
+    def _pre(self, A, B, c, tv, a, W, Vv, ph, X, u):
+        q = self.q
+        bu = np.abs(q[B]) @ np.abs(u) if u.size else 0.0
+        vu = np.abs(q[Vv]) @ np.abs(u) if u.size else 0.0
+        ap = np.abs(X) @ np.abs(q[W]).T + vu + np.abs(q[ph])
+        return np.abs(X) @ np.abs(q[A]).T + bu + np.abs(q[c]) + abs(self.t) * np.abs(q[tv]) + np.abs(q[a]) * (1 + ap)
+
+    def f(self, X, u):
+        return self._fun("A0", "B0", "c1", "tf", "af", "Wf", "Vf", "phf", X, u)
+
+    def g(self, X, u):
+        return self._fun("C0", "D0", "c2", "tg", "ag", "Wg", "Vg", "phg", X, u)
+
+    def fpre(self, X, u):
+        return self._pre("A0", "B0", "c1", "tf", "af", "Wf", "Vf", "phf", X, u)
+
+    def gpre(self, X, u):
+        return self._pre("C0", "D0", "c2", "tg", "ag", "Wg", "Vg", "phg", X, u)
+
+
+def np_ukf(fam: NpFam, kk, u, y, Q, R, x, P):
+    """Textbook UKF in float64 numpy — ONLY to obtain the magnitudes that enter the tolerance (pre-cancellation
+    sizes of the sigma-point values, deviations, gain, conditioning).  Raises LinAlgError when a factor fails."""
+    n, p = len(x), len(y)
+    u, y, x = np.array(u, dtype=float), np.array(y, dtype=float), np.array(x, dtype=float)
+    Q, R, P = np.array(Q, dtype=float), np.array(R, dtype=float), np.array(P, dtype=float)
+    kk = float(kk)
     w0, wr = kk / (n + kk), 1 / (2 * (n + kk))
+    w = np.array([w0] + [wr] * (2 * n))[:, None]
     wsum = abs(w0) + 2 * n * abs(wr)
 
     def sigma(xc, Pc):
         Ms = (n + kk) * Pc
-        Ms = (Ms + Ms.T) / 2
-        L = mp.cholesky(Ms)
-        pts = [xc] + [xc + L[:, i] for i in range(n)] + [xc - L[:, i] for i in range(n)]
-        return pts, L
-
-    def wmean(vals):
-        z = w0 * vals[0]
-        for v in vals[1:]:
-            z = z + wr * v
-        return z
-
-    def cov(a, b):
-        z = w0 * a[0] * b[0].T
-        for i in range(1, len(a)):
-            z = z + wr * a[i] * b[i].T
-        return z
+        L = np.linalg.cholesky((Ms + Ms.T) / 2)
+        return np.concatenate([xc[None, :], xc[None, :] + L.T, xc[None, :] - L.T], 0), L
 
     pts, L1 = sigma(x, P)
-    xs = [fam.f(pt, u) for pt in pts]
-    fpre = max(float(mmax(fam.fpre(pt, u))) for pt in pts)
-    xe = wmean(xs)
-    ex = [xe - v for v in xs]
-    devf = max(float(mmax(v)) for v in ex)
-    Pm = Q + cov(ex, ex)
+    xs = fam.f(pts, u)
+    fpre = float(fam.fpre(pts, u).max())
+    xe = (w * xs).sum(0)
+    ex = xe - xs
+    devf = float(np.abs(ex).max())
+    Pm = Q + (w[:, :, None] * ex[:, :, None] * ex[:, None, :]).sum(0)
     pts2, L2 = sigma(xe, Pm)
-    ex2 = [xe - v for v in pts2]
-    ys = [fam.g(pt, u) for pt in pts2]
-    gpre = max(float(mmax(fam.gpre(pt, u))) for pt in pts2)
-    ye = wmean(ys)
-    ey = [ye - v for v in ys]
-    devg = max(float(mmax(v)) for v in ey)
-    Py = R + cov(ey, ey)
-    Pxy = cov(ex2, ey)
-    Pyi = mp.inverse(Py)
-    K = Pxy * Pyi
-    xp = xe + K * (y - ye)
-    Pp = Pm - K * Py * K.T
-    # ---- tolerance ingredients (coefficients of eps)
-    wsum = float(wsum)
+    ex2 = xe - pts2
+    ys = fam.g(pts2, u)
+    gpre = float(fam.gpre(pts2, u).max())
+    ye = (w * ys).sum(0)
+    ey = ye - ys
+    devg = float(np.abs(ey).max())
+    Py = R + (w[:, :, None] * ey[:, :, None] * ey[:, None, :]).sum(0)
+    Pxy = (w[:, :, None] * ex2[:, :, None] * ey[:, None, :]).sum(0)
+    Pyi = np.linalg.inv(Py)
+    K = Pxy @ Pyi
+    # ---- coefficients of eps
     om = wsum * (1 + wsum)
-    p = len(y)
-    devx2 = float(mmax(L2))
-    x2pre = float(mmax(xe)) * 0 + wsum * fpre + devx2
-    Pmmax = float(mmax(Pm)) + float(mmax(Q))
+    devx2 = float(np.abs(L2).max())
+    x2pre = wsum * fpre + devx2
+    Pmmax = float(np.abs(Pm).max()) + float(np.abs(Q).max())
     dPm = om * devf * fpre + Pmmax
     lip = (devg / devx2) if devx2 > 0 else 0.0
-    dPy = om * devg * gpre + lip * lip * dPm + float(mmax(Py)) + float(mmax(R))
-    dPxy = om * (devx2 * gpre + devg * x2pre) + lip * dPm + float(mmax(Pxy))
-    invPy = float(mmax(Pyi)) * p
-    Kmax = float(mmax(K))
+    dPy = om * devg * gpre + lip * lip * dPm + float(np.abs(Py).max()) + float(np.abs(R).max())
+    dPxy = om * (devx2 * gpre + devg * x2pre) + lip * dPm + float(np.abs(Pxy).max())
+    invPy = float(np.abs(Pyi).max()) * p
+    Kmax = float(np.abs(K).max())
     dK = dPxy * invPy + Kmax * dPy * invPy * p
-    PyK = float(mmax(Py * K.T))
+    PyK = float(np.abs(Py @ K.T).max())
     scaleP = dPm + 2 * p * dK * PyK + p * p * Kmax * Kmax * dPy
-    inn = float(mmax(y)) + wsum * gpre
-    scalex = wsum * fpre + p * Kmax * inn + p * dK * float(mmax(y - ye))
-    return {"x": xp, "P": Pp, "xe": xe, "Pm": Pm, "Py": Py, "K": K, "kappa": cond2(Py), "kappaPm": cond2(Pm),
-            "scaleP": scaleP, "scalex": scalex, "w0": float(w0)}
+    inn = float(np.abs(y).max()) + wsum * gpre
+    scalex = wsum * fpre + p * Kmax * inn + p * dK * float(np.abs(y - ye).max())
+    return {"kappa": float(np.linalg.cond(Py)), "kappaPm": float(np.linalg.cond(Pm)), "scaleP": scaleP, "scalex": scalex,
+            "w0": w0, "lamPm": float(np.linalg.eigvalsh((Pm + Pm.T) / 2).min()), "dPm": dPm}
 
 
 def mp_to_list(v):
